@@ -423,6 +423,18 @@ type builder struct {
 	share map[*Node]z.ZogSchema
 }
 
+// options of a Required(...) / NotNil(...) call
+func reqOpts(n *Node) []z.TestOption {
+	o := []z.TestOption{}
+	if n.ReqPath != "" {
+		o = append(o, z.IssuePath(n.ReqPath))
+	}
+	if n.ReqMsg != "" {
+		o = append(o, z.Message(n.ReqMsg))
+	}
+	return o
+}
+
 func testOpts(t Test) []z.TestOption {
 	opts := []z.TestOption{}
 	if t.User {
@@ -456,6 +468,9 @@ func (b *builder) postTransform(kind string, tmpl []string, i int, n *Node) z.Po
 			}
 		case "err":
 			return errors.New("pt failed")
+		case "werr":
+			// an ordinary error that merely WRAPS a ZogIssue: it must be reported like any other error
+			return fmt.Errorf("wrapped: %w", ctx.Issue().SetCode("inner").SetPath("elsewhere"))
 		case "zerr":
 			return ctx.Issue().SetCode("ptz").SetMessage("ptz")
 		}
@@ -466,7 +481,7 @@ func (b *builder) postTransform(kind string, tmpl []string, i int, n *Node) z.Po
 func buildNumber[T int | float64](s *z.NumberSchema[T], b *builder, n *Node, tmpl []string) z.ZogSchema {
 	cv := func(i int) T { return T(i) }
 	if n.Req {
-		s.Required()
+		s.Required(reqOpts(n)...)
 	}
 	if n.Def != None {
 		s.Default(cv(n.Def))
@@ -524,7 +539,7 @@ func (b *builder) build1(n *Node, tmpl []string) z.ZogSchema {
 		case "str":
 			s := z.String()
 			if n.Req {
-				s.Required()
+				s.Required(reqOpts(n)...)
 			}
 			if n.Def != None {
 				s.Default(concStr(n.Def))
@@ -556,7 +571,7 @@ func (b *builder) build1(n *Node, tmpl []string) z.ZogSchema {
 		case "bool":
 			s := z.Bool()
 			if n.Req {
-				s.Required()
+				s.Required(reqOpts(n)...)
 			}
 			if n.Def != None {
 				s.Default(n.Def == 1)
@@ -581,7 +596,7 @@ func (b *builder) build1(n *Node, tmpl []string) z.ZogSchema {
 		case "time":
 			s := z.Time()
 			if n.Req {
-				s.Required()
+				s.Required(reqOpts(n)...)
 			}
 			if n.Def != None {
 				s.Default(concTime(n.Def))
@@ -640,7 +655,7 @@ func (b *builder) build1(n *Node, tmpl []string) z.ZogSchema {
 	case "slice":
 		s := z.Slice(b.build(n.Elem(), cp(tmpl, "[]")))
 		if n.Req {
-			s.Required()
+			s.Required(reqOpts(n)...)
 		}
 		if n.Def != None {
 			st := goType(n)
@@ -687,7 +702,7 @@ func (b *builder) build1(n *Node, tmpl []string) z.ZogSchema {
 	case "ptr":
 		s := z.Ptr(b.build(n.Elem(), cp(tmpl, "*")))
 		if n.Req {
-			s.NotNil()
+			s.NotNil(reqOpts(n)...)
 		}
 		return s
 	}
